@@ -36,6 +36,13 @@ _SPECS = {}
 def _clear_caches():
     from . import shims
     shims.PORT_MAX = 65535
+    try:            # class-level memo of the (instrumented) stdlib: must not carry symbolic keys from one path to the next
+        import ipaddress
+        for cls in (ipaddress._BaseV4, ipaddress.IPv4Address, ipaddress.IPv4Network, ipaddress.IPv4Interface):
+            if "_netmask_cache" in cls.__dict__:
+                cls._netmask_cache = shims.SymDict()
+    except Exception:
+        pass
     try:
         from cisco_acl.wildcard import Wildcard
         cc = getattr(Wildcard.ipnets, "cache_clear", None)
